@@ -760,8 +760,13 @@ def select__element_kind_test(self: XPathFunction, context: ta.ContextType = Non
             elif isinstance(item, ElementNode):
                 type_annotation = self[1].name
                 if item.nilled:
+                    # element(N, T?) admits a nilled element, whose type annotation has to derive from T as well
                     if self[1].occurrence in ('*', '?'):
-                        yield item
+                        schema = self.parser.schema
+                        xsd_type = schema.get_type(type_annotation) if schema is not None else None
+                        if type_annotation in (item.type_name, XSD_ANY_TYPE) or xsd_type is not None and \
+                                getattr(item.xsd_type, 'is_derived', lambda x: False)(xsd_type):
+                            yield item
                 elif item.type_name == type_annotation:
                     if type_annotation != XSD_UNTYPED:
                         yield item
